@@ -158,6 +158,14 @@ var _ http.Header
 //@   ensures[C14,C15] result == nil && (v.Type == ValueTypeReference || v.Type == ValueTypeSoftReference) ==> predValidRID(v.RID, true)
 //@   ensures[C15] result == nil ==> v.Type == ValueTypePrimitive || v.Type == ValueTypeReference || v.Type == ValueTypeSoftReference ||
 //@       v.Type == ValueTypeDelete || v.Type == ValueTypeData
+// (a value object is accepted only in one of its three forms - a reference, an action, or a
+// data value - never with members of two of them)
+//@   assert[C15] set(v.Type)#1: mvo.RID != nil && mvo.Action == nil && mvo.Data == nil && mvo.Soft
+//@   assert[C15] set(v.Type)#2: mvo.RID != nil && mvo.Action == nil && mvo.Data == nil && !mvo.Soft
+//@   assert[C15] set(v.Type)#3: mvo.RID == nil && mvo.Action != nil && mvo.Data == nil && *mvo.Action == "delete"
+//@   assert[C15] set(v.Type)#4: mvo.RID == nil && mvo.Action == nil && mvo.Data != nil
+//@   assert[C15] set(v.Type)#5: mvo.RID == nil && mvo.Action == nil && mvo.Data != nil
+//@   assert[C15] set(v.Type)#6: c != '{' && c != '['
 //@   safety[C15]
 //@   loop 1 invariant 0 <= i && (exists j int :: i <= j && j < len(v.RawMessage) && v.RawMessage[j] != 32 && v.RawMessage[j] != 9 && v.RawMessage[j] != 10 && v.RawMessage[j] != 13)
 
